@@ -643,6 +643,22 @@ static Reg r_rhxpos("rh_xpos", [](const Args& a) {
   emit(hx(lat2) + " " + hx(lon2) + " " + hx(S12));
 });
 
+// rh_datanhee a f x y : DAuxLatitude::Datanhee (divided difference of atanh(e sin phi)/e with respect to tan phi) against the RE model and,
+// where the quotient is well conditioned in long double, against the defining quotient / the derivative at x == y
+static Reg r_rhdatanhee("rh_datanhee", [](const Args& a) {
+  double ea = unhx(a[0]), ef = unhx(a[1]), x = unhx(a[2]), y = unhx(a[3]);
+  const DAuxLatitude& A = rh(ea, ef, true)._aux;
+  double v = A.Datanhee(x, y); emit(hx(v));
+  if (!(std::isfinite(x) && std::isfinite(y))) return;
+  const rho::Ell& E = el(ea, ef);
+  auto G = [&](LD t) { return E.atanhee(t / hypotl(1, t)); };
+  LD X = x, Y = y, ref;
+  if (x == y) { LD sc = hypotl(1, X), s = X / sc; ref = 1 / ((1 - E.e2 * s * s) * sc * sc * sc); }   // d/dt atanh(e sn t)/e = sn'(t)/(1 - e^2 sn^2)
+  else { LD gx = G(X), gy = G(Y); LD cond = (fabsl(gx) + fabsl(gy)) / fabsl(gy - gx); if (!(cond < 1e3L)) { stat("dd-illconditioned-skipped"); return; } ref = (gy - gx) / (Y - X); }
+  if (!std::isfinite((double)ref)) return;
+  if (!(std::fabs((double)((LD)v - ref)) <= 64 * EPS * std::fabs((double)ref) + 1e-300)) bad("dd-kernel", "Datanhee = " + num(v) + " but the divided difference of atanh(e sin phi)/e is " + num(ref));
+});
+
 // ---- generators -------------------------------------------------------------------------------------------------
 static double pw(Rng& r, int lo, int hi) { return std::pow(10.0, r.range(lo, hi)); }
 void gv::generate(const std::string& tier, uint64_t seed) {
@@ -727,6 +743,7 @@ void gv::generate(const std::string& tier, uint64_t seed) {
       switch (k) { case 0: y = x; break; case 1: y = nextup(x, r.irange(1, 3)); break; case 2: y = x * (1 + r.range(-1, 1) * pw(r, -15, -1)); break; case 3: y = -x * r.range(0.5, 2); break; case 4: y = x + r.range(-1, 1) * pw(r, -12, 0); break; default: y = tg(); }
       if (fn == 6) { x = std::atan(x); y = std::atan(y); }
       run("dd", {std::to_string(fn), H(x), H(y)}); stratum("dd-" + std::to_string(fn));
+      if (rep == 0 && fn != 6) { run("rh_datanhee", {A, F, H(x), H(y)}); stratum("dd-datanhee"); }
     }
     { int K = r.irange(0, 8); std::vector<std::string> av = {r.coin() ? "1" : "0", r.irange(0, 3) ? "0" : "1"}; double z1 = r.range(-1.6, 1.6), z2;
       switch (r.irange(0, 3)) { case 0: z2 = z1; break; case 1: z2 = z1 + r.range(-1, 1) * pw(r, -12, 0); break; case 2: z2 = -z1; break; default: z2 = r.range(-1.6, 1.6); }
